@@ -3,7 +3,7 @@ from ..vlib import core
 from . import kernlib
 
 RULE = ("every program TLC enumerates within the bounds (processes interrupting each other, victims that ignore, re-wait, wait for something "
-        "else, terminate or raise; interrupts of dead processes and of oneself) replayed on the real kernel, logs compared; plus generated "
+        "else, terminate or raise; interrupts of dead processes and of oneself, interrupts issued by plain callbacks of events) replayed on the real kernel, logs compared; plus generated "
         "larger programs validated by TLC. non-trivial as in C01")
 KINDS = {"sleep": 5, "spawn": 2.5, "interrupt": 4, "yield": 4, "event": 1, "succeed": 1, "raise": 0.7, "return": 0.5}
 # victims waiting on conditions / shared events / resources-free joins: interrupts meeting the other event kinds
@@ -16,7 +16,11 @@ def run(ctx, replay=None):
         return kernlib.replay(ctx, replay)
     if ctx.quick:
         kernlib.mc_replay(ctx, "KernelMC_c04.cfg", {"MaxEv = 9": "MaxEv = 7", '"interrupt", "interruptn"': '"interrupt"'}, label="KernelMC/c04 3x2 ev7")
-        kernlib.gen_validate(ctx, 1500, KINDS)
+        # interrupts issued by plain callbacks of events (no process is active while they run)
+        kernlib.mc_replay(ctx, "KernelMC_c04.cfg", {"MaxProc = 3": "MaxProc = 2", "MaxOps = 2": "MaxOps = 3", "MaxEv = 9": "MaxEv = 8",
+                                                   '"interrupt", "interruptn", "yield", "raise"': '"cbintr", "yield"', "Delays = {0, 1}": "Delays = {1}"},
+                          label="KernelMC/c04 2x3 interrupting callbacks", limit=40000)
+        kernlib.gen_validate(ctx, 1500, dict(KINDS, cbintr=2))
         kernlib.gen_validate(ctx, 2500, MIXED, label="generated-interrupts-and-conditions", orphan_finding="F19b")
     else:
         kernlib.mc_replay(ctx, "KernelMC_c04.cfg", label="KernelMC/c04 3x2")
@@ -25,7 +29,10 @@ def run(ctx, replay=None):
         # beyond the exhaustive bound: random deep behaviours of the same specification (TLC -simulate), replayed likewise
         kernlib.mc_replay(ctx, "KernelMC_c04.cfg", {"MaxProc = 3": "MaxProc = 4", "MaxOps = 2": "MaxOps = 4", "MaxEv = 9": "MaxEv = 22"},
                           label="KernelMC/c04 simulate 4 procs x 4-5 ops", simulate=4000, depth=400)
-        kernlib.gen_validate(ctx, 20000, KINDS)
+        kernlib.mc_replay(ctx, "KernelMC_c04.cfg", {"MaxProc = 3": "MaxProc = 2", "MaxOps = 2": "MaxOps = 3", "MaxEv = 9": "MaxEv = 9",
+                                                   '"interrupt", "interruptn", "yield", "raise"': '"cbintr", "interrupt", "yield"'},
+                          label="KernelMC/c04 2x3 interrupting callbacks", limit=300000)
+        kernlib.gen_validate(ctx, 20000, dict(KINDS, cbintr=2))
         kernlib.gen_validate(ctx, 5000, KINDS, max_procs=6, max_ops=8, max_events=40, label="generated-large")
         kernlib.gen_validate(ctx, 25000, MIXED, label="generated-interrupts-and-conditions", orphan_finding="F19b")
     return ctx.finish(RULE)
